@@ -27,6 +27,8 @@ pub ghost enum Call {
     Exec(u32),
     /// initializeDataModel(state, set_data)
     Init(u32, bool),
+    /// execute_condition(script) with its answer (None = evaluation error)
+    Cond(Data, Option<bool>),
 }
 
 pub trait Datamodel {
@@ -56,6 +58,22 @@ pub trait Datamodel {
             final(self).log() == old(self).log(),
             frame_core(old(self).gview(), final(self).gview()),
             final(self).gview().child_sessions == old(self).gview().child_sessions;
+
+    /// evaluates a guard (oracle); the answer is recorded in the ghost log
+    fn execute_condition(&mut self, script: &Data) -> (r: Result<bool, String>)
+        ensures
+            final(self).log() == old(self).log().push(Call::Cond(*script, match r { Ok(b) => Some(b), Err(_) => None })),
+            frame_core(old(self).gview(), final(self).gview()),
+            final(self).gview().child_sessions == old(self).gview().child_sessions;
+
+    /// places error.execution on the internal queue (default method of the real trait)
+    fn internal_error_execution(&mut self)
+        ensures
+            final(self).log() == old(self).log(),
+            frame_core(old(self).gview(), final(self).gview()),
+            final(self).gview().child_sessions == old(self).gview().child_sessions,
+            final(self).gview().internalQueue.data@.len() == old(self).gview().internalQueue.data@.len() + 1,
+            final(self).gview().internalQueue.data@.last().name@ == "error.execution"@;
 
     /// read-only view of the session's global data (models `global_s().lock().unwrap()`)
     fn gs(&self) -> (r: &GlobalData)
@@ -91,3 +109,40 @@ pub fn verif_concat(a: &str, b: &str) -> (r: String)
 {
     unimplemented!()
 }
+
+/// whether a Data value is "empty" (no expression): uninterpreted
+pub uninterp spec fn data_is_empty(d: Data) -> bool;
+
+impl Data {
+    #[verifier::external_body]
+    pub fn is_empty(&self) -> (r: bool)
+        ensures
+            r == data_is_empty(*self),
+    {
+        unimplemented!()
+    }
+}
+
+impl Clone for Data {
+    #[verifier::external_body]
+    fn clone(&self) -> (r: Self)
+        ensures
+            r == *self,
+    {
+        unimplemented!()
+    }
+}
+
+/// R19: `name.starts_with(e)` (generic over the unstable `Pattern` trait) routed through a monomorphic wrapper
+#[verifier::external_body]
+pub fn verif_str_starts_with(s: &str, p: &String) -> (r: bool)
+    ensures
+        r == vstd::utf8::encode_utf8(p@).is_prefix_of(s.spec_bytes()),
+{
+    s.starts_with(p)
+}
+
+/// String::len is the byte length
+pub assume_specification [std::string::String::len] (s: &std::string::String) -> (r: usize)
+    ensures
+        r == vstd::utf8::encode_utf8(s@).len();
